@@ -516,12 +516,18 @@ def generate_c05_chunked(rng, tr):
     amp = rng.choice([3, 4, 5, 8])
     n = rng.choice([4, 6, 8, 10, 14, 20])
     lv = gen_levels(rng, n, amp)
-    out = []
-    for x in lv:
-        out.append(x)
-        while rng.random() < rng.choice([0.0, 0.3, 0.5]):
-            out.append(x)                     # dwell
-    lv = refine(rng, out, junction=False, density=0.2) if rng.random() < 0.4 else out
+    if rng.random() < 0.3:
+        # a pure reversal sequence: every sample of every block is a turning point
+        lv = [x for i, x in enumerate(lv) if i == 0 or x != lv[i - 1]]
+        lv = [x for i, x in enumerate(lv) if not (0 < i < len(lv) - 1 and (lv[i] - lv[i - 1]) * (lv[i + 1] - lv[i]) >= 0)]
+        out = lv if len(lv) >= 3 else [1, -2, 3, -1]
+    else:
+        out = []
+        for x in lv:
+            out.append(x)
+            while rng.random() < rng.choice([0.0, 0.3, 0.5]):
+                out.append(x)                     # dwell
+    lv = refine(rng, out, junction=False, density=0.2) if rng.random() < 0.25 else out
     if len(set(lv)) < 2:
         lv = lv + [lv[-1] + 1]
     n = len(lv)
